@@ -32,6 +32,9 @@ type CandidatePair struct {
 	state                    CandidatePairState
 	nominated                bool
 	nominateOnBindingSuccess bool
+	// nominationValueOnBindingSuccess is the renomination value carried by the
+	// deferred nomination, nil for a standard (USE-CANDIDATE only) nomination.
+	nominationValueOnBindingSuccess *uint32
 
 	// stats
 	currentRoundTripTime int64 // in ns
